@@ -6,6 +6,7 @@ import (
 	"errors"
 	"time"
 
+	"github.com/openconfig/gnmi/latency"
 	"github.com/openconfig/gnmi/metadata"
 	zz "github.com/openconfig/gnmi/zzverif"
 
@@ -233,4 +234,47 @@ func VerifC15_RefreshRace(h *zz.H) {
 	<-done
 	<-done
 	h.Assert(vMetaInt(c, vDev, metadata.LeafCount) == 1, "C15: counters stay truthful under a concurrent refresh")
+}
+
+// VerifC15_RefreshRaceLatency: as VerifC15_RefreshRace with latency windows configured and the
+// stream goroutine ending its session with Reset (which refreshes the target's metadata, latency
+// statistics included) while the periodic refresh runs: no unsynchronised access to the window
+// state, and the statistics exported stay within the latencies observed.
+func VerifC15_RefreshRaceLatency(h *zz.H) {
+	opt, err := WithLatencyWindows([]string{"2s"}, 2*time.Second)
+	h.Assume(err == nil)
+	base := int64(1000) * int64(time.Second)
+	lnow := base
+	latency.Now = func() time.Time { return time.Unix(0, lnow) }
+	Now = func() time.Time { return time.Unix(0, lnow) }
+	c := New([]string{vDev}, opt)
+	c.Sync(vDev)
+	lnow = base + int64(time.Second)
+	lat := h.Int64("latency")
+	h.Assume(lat > 0 && lat < int64(time.Hour))
+	c.GnmiUpdate(vUpdate(vDev, []string{"x"}, 0, lnow-lat, vIntVal(1)))
+	lnow = base + 3*int64(time.Second)
+	done := make(chan bool, 2)
+	go func() {
+		switch h.Range("stream_end", 0, 1) {
+		case 0:
+			c.Reset(vDev) // the session ends: Reset refreshes the metadata itself
+		default:
+			c.GnmiUpdate(vUpdate(vDev, []string{"x"}, 0, lnow-lat, vIntVal(2)))
+		}
+		done <- true
+	}()
+	go func() {
+		c.UpdateMetadata()
+		done <- true
+	}()
+	<-done
+	<-done
+	for _, typ := range []latency.StatType{latency.Avg, latency.Max, latency.Min} {
+		name := latency.MetadataName(2*time.Second, typ)
+		if v, err := c.GetTarget(vDev).meta.GetInt(name); err == nil && v != 0 {
+			h.Cover("a latency statistic was exported")
+			h.Assert(v == lat, "C15: latency statistics exported for a window are bounded by the latencies observed in it")
+		}
+	}
 }
